@@ -132,7 +132,8 @@ Proof.
   rewrite IH by auto. destruct (Ascii.eqb_spec a c); [congruence|reflexivity].
 Qed.
 
-Definition dbprefix (dbn : str) : str := prefix_name +++ "/" +++ dbn.
+(* the listing prefix of a database (after the fix: with the trailing slash) *)
+Definition dbprefix (dbn : str) : str := prefix_name +++ "/" +++ dbn +++ "/".
 Definition pname (dbn : str) (p : N) : str := prefix_name +++ "/" +++ dbn +++ "/" +++ N_to_str p +++ ".nun".
 Definition kname (dbn : str) : str := prefix_name +++ "/" +++ dbn +++ "/nun.keys".
 Definition vname (dbn : str) : str := prefix_name +++ "/" +++ dbn +++ "/nun.values".
@@ -146,7 +147,7 @@ Lemma pname_prefix dbn p : starts_with (pname dbn p) (dbprefix dbn) = true.
 Proof.
   unfold starts_with, pname, dbprefix.
   replace (prefix_name +++ "/" +++ dbn +++ "/" +++ N_to_str p +++ ".nun")
-    with ((prefix_name +++ "/" +++ dbn) +++ "/" +++ N_to_str p +++ ".nun") by now rewrite !app_assoc_s.
+    with ((prefix_name +++ "/" +++ dbn +++ "/") +++ N_to_str p +++ ".nun") by now rewrite !app_assoc_s.
   apply prefix_app.
 Qed.
 
@@ -1554,9 +1555,11 @@ Proof. vm_compute. repeat split; reflexivity. Qed.
 (* ====================================================================== *)
 Definition two64' : N := 18446744073709551616.
 
-(* every object whose name starts with "<prefix>/<dbn>" is a partition object of dbn.
-   NOTE: the listing prefix has no trailing '/', so objects of a database whose name extends dbn
-   ("d1" / "d10") are listed too: see part_prefix_collision_refuted *)
+(* every object whose name starts with "<prefix>/<dbn>/" is a partition object of dbn.  Since the
+   listing prefix ends with '/', the objects of other databases ("d10" when reading "d1") are not
+   concerned: see part_read_db_other_dbs and part_prefix_no_collision_example.  What this still
+   excludes: foreign objects INSIDE the database's own directory (e.g. "<prefix>/<dbn>/nun.keys"
+   left by strategy s3, or a database literally named "<dbn>/x"), whose stems do not parse *)
 Definition names_ok (dbn : str) (objs : objects) : Prop :=
   forall nm, In nm (map fst objs) -> starts_with nm (dbprefix dbn) = true ->
              exists p, nm = pname dbn p /\ p < two64'.
@@ -1760,18 +1763,111 @@ Proof.
   eapply snap_mem_ext_on; [|exact G4]. intros k v Hg. cbv beta. apply pssel_in. eapply Hps; eauto.
 Qed.
 
-(* the listing prefix of a database also matches the objects of databases whose name extends it:
-   reading "d1" while "d10" has a partition that "d1" lacks fails (PFail), although d1's own
-   objects are intact *)
-Example part_prefix_collision_refuted :
+(* a database stored for the first time: whatever OTHER databases the store holds *)
+Corollary part_roundtrip_reclaim_fresh retry parts d dbn order0 s clock orders clk0 :
+  NoDup (map fst (d_map d)) -> mem_ok3 (d_map d) -> NoDup order0 -> Forall (@NoDup str) orders ->
+  parts_ok parts -> st_putfail s = None -> st_getfail s = None ->
+  (forall nm, In nm (map fst (st_objs s)) -> starts_with nm (dbprefix dbn) = false) ->
+  exists s' mem' clk' os' s'' m clk'',
+    part_snapshot retry parts d dbn order0 true s clock orders = (s', mem', clk', os', true) /\
+    part_read_db retry s' dbn clk0 = (s'', PLoaded m clk'') /\
+    live_restored (d_map d) m /\ snap_mem (fun _ => true) (d_map d) mem' /\ st_objs s'' = st_objs s'.
+Proof.
+  intros Hm Hok Ho0 Hos Hparts Hpf Hgf Hfresh. apply part_roundtrip_reclaim; auto.
+  intros nm Hin Hst. rewrite (Hfresh nm Hin) in Hst. discriminate.
+Qed.
+
+(* ---- objects of other databases do not matter ---- *)
+Definition db_objs (dbn : str) (objs : objects) : objects :=
+  filter (fun kv => starts_with (fst kv) (dbprefix dbn)) objs.
+
+Lemma get_filter (P : str -> bool) k (l : objects) : P k = true ->
+  get k (filter (fun kv => P (fst kv)) l) = get k l.
+Proof.
+  intros Hk. induction l as [|[k' v] r IH]; cbn [filter fst]; auto.
+  destruct (P k') eqn:E; cbn [assoc_get].
+  - now rewrite IH.
+  - destruct (String.eqb_spec k k') as [->|Hn]; [congruence|exact IH].
+Qed.
+
+Lemma map_fst_filter (P : str -> bool) (l : objects) :
+  map fst (filter (fun kv => P (fst kv)) l) = filter P (map fst l).
+Proof. induction l as [|[k v] r IH]; cbn; auto. destruct (P k); cbn; now rewrite IH. Qed.
+
+Lemma filter_idem {A} (P : A -> bool) l : filter P (filter P l) = filter P l.
+Proof. induction l as [|a l IH]; cbn; auto. destruct (P a) eqn:E; cbn; rewrite ?E, IH; auto. Qed.
+
+Lemma fold_left_ext {A B} (f g : A -> B -> A) : (forall a b, f a b = g a b) ->
+  forall l a, fold_left f l a = fold_left g l a.
+Proof. intros H. induction l as [|b l IH]; intros a; cbn; auto. now rewrite H, IH. Qed.
+
+Lemma stem_name_prefix dbn stem :
+  starts_with (prefix_name +++ "/" +++ dbn +++ "/" +++ stem +++ ".nun") (dbprefix dbn) = true.
+Proof.
+  unfold starts_with, dbprefix.
+  replace (prefix_name +++ "/" +++ dbn +++ "/" +++ stem +++ ".nun")
+    with ((prefix_name +++ "/" +++ dbn +++ "/") +++ stem +++ ".nun") by now rewrite !app_assoc_s.
+  apply prefix_app.
+Qed.
+
+Lemma read_pure_db_objs dbn objs r stem : read_pure dbn objs r stem = read_pure dbn (db_objs dbn objs) r stem.
+Proof.
+  unfold read_pure, db_objs. destruct r; auto.
+  rewrite (get_filter (fun k => starts_with k (dbprefix dbn))) by apply stem_name_prefix. reflexivity.
+Qed.
+
+(* what part_read_db computes depends only on the objects whose name starts with "<prefix>/<dbn>/" *)
+Lemma read_result_db_objs dbn objs clock : read_result dbn objs clock = read_result dbn (db_objs dbn objs) clock.
+Proof.
+  unfold read_result. unfold db_objs at 2.
+  rewrite (map_fst_filter (fun k => starts_with k (dbprefix dbn))), filter_idem.
+  apply fold_left_ext. intros a b. apply read_pure_db_objs.
+Qed.
+
+(* two stores that agree on the objects named "<prefix>/<dbn>/..." give the same read result: the
+   objects of other databases do not influence part_read_db *)
+Theorem part_read_db_other_dbs retry s1 s2 dbn clk :
+  gtol retry s1 -> gtol retry s2 ->
+  db_objs dbn (st_objs s1) = db_objs dbn (st_objs s2) ->
+  snd (part_read_db retry s1 dbn clk) = snd (part_read_db retry s2 dbn clk).
+Proof.
+  intros H1 H2 E. destruct (part_read_db_tol retry s1 dbn clk H1) as [A _].
+  destruct (part_read_db_tol retry s2 dbn clk H2) as [B _].
+  rewrite A, B, read_result_db_objs, E, <- read_result_db_objs. reflexivity.
+Qed.
+
+(* in particular, writing any object whose name does not start with "<prefix>/<dbn>/" *)
+Lemma db_objs_put_other dbn nm data objs : starts_with nm (dbprefix dbn) = false ->
+  db_objs dbn (aset nm data objs) = db_objs dbn objs.
+Proof.
+  intros Hn. unfold db_objs. induction objs as [|[k v] r IH]; cbn [assoc_set filter fst].
+  - now rewrite Hn.
+  - destruct (String.eqb_spec nm k) as [<-|Hne]; cbn [filter fst].
+    + now rewrite Hn.
+    + now rewrite IH.
+Qed.
+
+Corollary part_read_db_put_other retry s dbn clk nm data :
+  gtol retry s -> starts_with nm (dbprefix dbn) = false ->
+  let s2 := mkStub (aset nm data (st_objs s)) (st_puts s) (st_gets s) (st_putfail s) (st_getfail s) in
+  snd (part_read_db retry s2 dbn clk) = snd (part_read_db retry s dbn clk).
+Proof.
+  intros Ht Hn s2. apply part_read_db_other_dbs; auto. cbn [st_objs]. now apply db_objs_put_other.
+Qed.
+
+(* before the fix the listing prefix had no trailing slash and reading "d1" also listed the objects
+   of "d10" (the read failed when d10 had a partition that d1 lacks); after the fix d1 loads *)
+Example part_prefix_no_collision_example :
   let d1 := mkDb [("a", mkV "1" 1 0 VNew 0 0)] [] 0 1 SNewer in
   let d10 := mkDb [("b", mkV "2" 1 0 VNew 0 0)] [] 0 2 SNewer in
   let parts := [("a", 0); ("b", 5)] in
   let s1 := fst (fst (fst (fst (part_snapshot 2 parts d1 "d1" ["a"] true stub0 10 [["a"]])))) in
   let s2 := fst (fst (fst (fst (part_snapshot 2 parts d10 "d10" ["b"] true s1 20 [["b"]])))) in
+  map fst (st_objs s2) = ["nun-db-base/d1/0.nun"; "nun-db-base/d10/5.nun"] /\
   snd (part_read_db 2 s1 "d1" 30) = PLoaded [("a", mkV "1" 1 30 VOk 0 0)] 31 /\
-  snd (part_read_db 2 s2 "d1" 30) = PFail.
-Proof. vm_compute. split; reflexivity. Qed.
+  snd (part_read_db 2 s2 "d1" 30) = PLoaded [("a", mkV "1" 1 30 VOk 0 0)] 31 /\
+  snd (part_read_db 2 s2 "d10" 30) = PLoaded [("b", mkV "2" 1 30 VOk 5 0)] 31.
+Proof. vm_compute. repeat split; reflexivity. Qed.
 
 (* ====================================================================== *)
 (* 16. goal 5: the invariant of the partition strategy over histories      *)
@@ -1829,6 +1925,25 @@ Proof.
   - intros k b Hg Hs. specialize (Hst k). rewrite Hg in Hst.
     destruct (get k mem) as [a|] eqn:E; [|contradiction].
     destruct Hst as [->|[F _]]; [|contradiction]. now apply (pi_c _ _ _ _ _ H).
+Qed.
+
+(* objects of OTHER databases (any name that does not start with "<prefix>/<dbn>/") may be written
+   at any time: the invariant of dbn does not see them *)
+Lemma pname_not_other dbn nm p : starts_with nm (dbprefix dbn) = false -> pname dbn p <> nm.
+Proof. intros Hn E. rewrite <- E, pname_prefix in Hn. discriminate. Qed.
+
+Theorem PInv_put_other parts dbn mem objs nm data :
+  starts_with nm (dbprefix dbn) = false -> PInv parts dbn mem objs -> PInv parts dbn mem (aset nm data objs).
+Proof.
+  intros Hn (dec & H). exists dec.
+  assert (G : forall p, get (pname dbn p) (aset nm data objs) = get (pname dbn p) objs).
+  { intros p. apply ogso. now apply pname_not_other. }
+  constructor; try apply H.
+  - intros x Hin Hst. apply in_keys_aset in Hin. destruct Hin as [->|Hin]; [congruence|].
+    now apply (pi_names _ _ _ _ _ H).
+  - intros p d0. rewrite G. apply (pi_dec _ _ _ _ _ H).
+  - intros p r. rewrite G. apply (pi_b _ _ _ _ _ H).
+  - intros k mv A B. rewrite G. now apply (pi_c _ _ _ _ _ H).
 Qed.
 
 Lemma mstep_refl m : NoDup (map fst m) -> mem_ok3 m -> mstep m m.
@@ -2042,7 +2157,8 @@ Inductive pev :=
 | PvSet (ch : change)
 | PvRemove (k : str)
 | PvInc (k : str) (i : Z) (opp : N)
-| PvSnap (reclaim : bool) (order0 : list str) (orders : list (list str)).
+| PvSnap (reclaim : bool) (order0 : list str) (orders : list (list str))
+| PvOther (nm data : str).      (* another database (or anybody) writes an object outside "<prefix>/<dbn>/" *)
 
 Definition pstate := (list (str * value) * stub * N)%type.
 
@@ -2054,14 +2170,16 @@ Definition prun (retry : nat) (parts : list (str * N)) (dbn : str) (st : pstate)
   | PvInc k i opp => (d_map (fst (fst (inc_value (db_of m) k i opp))), s, clk)
   | PvSnap reclaim o0 os =>
       let '(s', m', clk', _, _) := part_snapshot retry parts (db_of m) dbn o0 reclaim s clk os in (m', s', clk')
+  | PvOther nm data => (m, fst (stub_put s nm data), clk)
   end.
 
-Definition pev_ok (e : pev) : Prop :=
+Definition pev_ok (dbn : str) (e : pev) : Prop :=
   match e with
   | PvSet ch => str_ok (c_key ch) /\ str_ok (c_val ch) /\ i32_range (c_ver ch)
   | PvRemove _ => True
   | PvInc k _ _ => str_ok k
   | PvSnap _ o0 os => NoDup o0 /\ Forall (@NoDup str) os
+  | PvOther nm _ => starts_with nm (dbprefix dbn) = false
   end.
 
 Definition PJ parts dbn (st : pstate) : Prop :=
@@ -2070,11 +2188,11 @@ Definition PJ parts dbn (st : pstate) : Prop :=
 Lemma PInv_mem parts dbn m objs : PInv parts dbn m objs -> NoDup (map fst m) /\ mem_ok3 m.
 Proof. intros (dec & H). split; apply H. Qed.
 
-Lemma prun_inv retry parts dbn st e : parts_ok parts -> PJ parts dbn st -> pev_ok e -> PJ parts dbn (prun retry parts dbn st e).
+Lemma prun_inv retry parts dbn st e : parts_ok parts -> PJ parts dbn st -> pev_ok dbn e -> PJ parts dbn (prun retry parts dbn st e).
 Proof.
   intros Hparts. destruct st as [[m s] clk]. intros (HI & Hpf & Hgf) He.
   destruct (PInv_mem _ _ _ _ HI) as [Hnd Hok].
-  destruct e as [ch|k|k i opp|reclaim o0 os]; cbn [prun pev_ok] in *.
+  destruct e as [ch|k|k i opp|reclaim o0 os|nm data]; cbn [prun pev_ok] in *.
   - destruct He as (A & B & C). split; auto. eapply PInv_mstep; [exact HI|].
     apply (set_value_mstep (db_of m) ch); auto.
   - split; auto. eapply PInv_mstep; [exact HI|]. apply (remove_value_mstep (db_of m) k); auto.
@@ -2083,11 +2201,13 @@ Proof.
     destruct (PInv_snapshot retry parts (db_of m) dbn o0 reclaim s clk os HI Hparts A B Hpf)
       as (s' & mem' & clk' & os' & E & HI' & _ & _ & _ & Hpf' & Hgf').
     rewrite E. split; auto. split; auto. congruence.
+  - rewrite stub_put_nofault by exact Hpf. cbn [fst st_objs st_putfail st_getfail].
+    split; auto. now apply PInv_put_other.
 Qed.
 
 (* goal 5: the invariant holds after every history *)
 Theorem part_history_inv retry parts dbn clk0 evs :
-  parts_ok parts -> Forall pev_ok evs ->
+  parts_ok parts -> Forall (pev_ok dbn) evs ->
   PJ parts dbn (fold_left (prun retry parts dbn) evs ([], stub0, clk0)).
 Proof.
   intros Hparts. assert (H0 : PJ parts dbn ([], stub0, clk0)).
@@ -2100,7 +2220,7 @@ Qed.
    exactly the non-deleted keys, with their values and versions; the retry budget may absorb one
    GET fault injected for the restart *)
 Theorem part_history_restore retry parts dbn clk0 evs reclaim o0 os getfault clk1 :
-  parts_ok parts -> Forall pev_ok evs -> NoDup o0 -> Forall (@NoDup str) os ->
+  parts_ok parts -> Forall (pev_ok dbn) evs -> NoDup o0 -> Forall (@NoDup str) os ->
   (getfault = None \/ (1 <= retry)%nat) ->
   let '(m, s, clk) := fold_left (prun retry parts dbn) evs ([], stub0, clk0) in
   exists s' mem' clk' os' s'' m' clk'',
@@ -2132,16 +2252,17 @@ Qed.
    stored (its partition is rewritten without it) and the read after it *)
 Definition ex_evs : list pev :=
   [PvSet (mkCh "a" "1" (-1) 1 false); PvSet (mkCh "b" "x" (-1) 2 false); PvSnap false ["a"; "b"] [["a"]; ["b"]];
-   PvRemove "a"; PvInc "c" 5 3; PvSet (mkCh "b" "y" (-1) 4 false); PvSnap false ["c"; "b"; "a"] [["c"; "a"]; ["b"]]].
+   PvRemove "a"; PvInc "c" 5 3; PvOther "nun-db-base/d2/7.nun" "junk"; PvSet (mkCh "b" "y" (-1) 4 false);
+   PvSnap false ["c"; "b"; "a"] [["c"; "a"]; ["b"]]].
 
 Example part_history_demo :
   let '(m, s, clk) := fold_left (prun 2 [("a", 0); ("b", 1); ("c", 0)] "d") ex_evs ([], stub0, 0) in
   map (fun kv => (fst kv, v_val (snd kv), v_st (snd kv))) m = [("a", "<Empty>", VDeleted); ("b", "y", VOk); ("c", "5", VOk)] /\
-  map fst (st_objs s) = ["nun-db-base/d/0.nun"; "nun-db-base/d/1.nun"] /\
+  map fst (st_objs s) = ["nun-db-base/d/0.nun"; "nun-db-base/d/1.nun"; "nun-db-base/d2/7.nun"] /\
   snd (part_read_db 2 s "d" 100) = PLoaded [("c", mkV "5" 1 100 VOk 0 0); ("b", mkV "y" 1 101 VOk 1 0)] 102.
 Proof. vm_compute. repeat split; reflexivity. Qed.
 
-Example ex_evs_ok : Forall pev_ok ex_evs.
+Example ex_evs_ok : Forall (pev_ok "d") ex_evs.
 Proof.
   repeat constructor; cbn; try (vm_compute; reflexivity); try (unfold slen, max_alloc; cbn; lia);
     try (unfold i32_range; lia); try (intros [H|H]; try discriminate H; try destruct H);
